@@ -11,7 +11,10 @@ class CFG:
         self.entry = raw["entry"]
         self.exit = raw["exit"]
         self.blocks = {b["id"]: b for b in raw["blocks"]}
-        self.succ = {b: [s for s in blk["succ"] if s is not None] for b, blk in self.blocks.items()}
+        # edges clang marks infeasible (compile-time constant condition: `if constexpr`, `if (false)`, `while (true)` exit)
+        # are not paths of the program
+        self.succ = {b: [s for i, s in enumerate(blk["succ"]) if s is not None and i not in blk.get("unr", ())]
+                     for b, blk in self.blocks.items()}
         self.pred = {b: [] for b in self.blocks}
         for b, ss in self.succ.items():
             for s in ss:
